@@ -182,8 +182,10 @@ func init() {
 					// dishonest prover: the bit decomposition of the element `value` is that of value + k*r
 					forged, val := bigOf(cl.Forged), new(big.Int).Mod(bigOf(cl.Value), bn254R)
 					evil := func(_ *big.Int, inputs []*big.Int, results []*big.Int) error {
+						// the prover lies ONLY on the decomposition that feeds the hash (256 digits of this element); every other
+						// decomposition the circuit may ask for (comparators, range checks) is answered honestly
 						src := inputs[0]
-						if len(results) >= 32 && inputs[0].Cmp(val) == 0 && (len(results) == 256 || forged.BitLen() > len(results)) {
+						if len(results) == 256 && inputs[0].Cmp(val) == 0 {
 							src = forged
 						}
 						for i := range results {
